@@ -31,6 +31,17 @@
 //!              mid in {nothing, gc, full_gc, repair, delA}.  The ghost counts the complete chunks the open
 //!              writer has stored as references.  All checks of such a sequence are folded into ONE finding
 //!              of C19.gc.inflight, so they never touch the six table obligations.
+//!  * aged    : EXTENSION (obligation C19.gc.aged_sequences): everywhere else `gc_min_age` is 1 h and `gc`
+//!              first back-dates every chunk, so an incremental collection never meets a chunk that is
+//!              too young.  Here `gc_min_age` is 1 s on the REAL clock, `gc` does not touch `_created`,
+//!              and the alphabet has `wait` (sleep min age + 1.1 s: `_created` has 1 s resolution).
+//!              Scripts putA:x delA [m1] putB:y m2 [delB wait gc] and three pairwise overlapping
+//!              artifacts, m1/m2 over {gc, full_gc, repair, wait} (see `aged_scripts`).  Same per-step
+//!              checks as `seq` (ghost refcounts per occurrence, read-back, verify, no referenced chunk
+//!              removed) + "no artifact exists and a gc directly follows a wait => no chunk keys left".
+//!              Every script runs on its own store; all scripts are tasks of ONE current-thread runtime,
+//!              so the sleeps overlap (the only real waiting in this set, ~3 x 2.1 s).  All checks of a
+//!              script are folded into ONE finding of C19.gc.aged_sequences.
 use crate::fw::{Report, Rng, Tier};
 use serde_json::{json, Value};
 use std::collections::{BTreeMap, BTreeSet};
@@ -53,6 +64,9 @@ const O_VF: &str = "C19.verify";
 /// clauses are judged on their own; set INFLIGHT to false to drop it.
 const O_IF: &str = "C19.gc.inflight";
 const INFLIGHT: bool = true;
+/// EXTENSION: sequences on the real clock with a non-zero gc_min_age (see the `aged` domain)
+const O_AGED: &str = "C19.gc.aged_sequences";
+const AGED_MIN_AGE_MS: u64 = 1000;
 
 struct Finding { ob: &'static str, ok: bool, detail: String }
 
@@ -132,10 +146,11 @@ fn age_chunks(store: &TensorStore) {
     }
 }
 
-async fn new_blob_on(ts: TensorStore, cs: usize, batch: usize) -> Result<BlobStore, BlobError> {
-    let cfg = BlobConfig::new().with_chunk_size(cs).with_gc_batch_size(batch).with_gc_min_age(Duration::from_secs(3600));
+async fn new_blob_aged(ts: TensorStore, cs: usize, batch: usize, min_age: Duration) -> Result<BlobStore, BlobError> {
+    let cfg = BlobConfig::new().with_chunk_size(cs).with_gc_batch_size(batch).with_gc_min_age(min_age);
     BlobStore::new(ts, cfg).await
 }
+async fn new_blob_on(ts: TensorStore, cs: usize, batch: usize) -> Result<BlobStore, BlobError> { new_blob_aged(ts, cs, batch, Duration::from_secs(3600)).await }
 async fn new_blob(cs: usize, batch: usize) -> Result<BlobStore, BlobError> { new_blob_on(TensorStore::new(), cs, batch).await }
 
 /// slot A: single put; slot B: writer, pieces of cs+1; slot C: writer, single bytes (4099 if large)
@@ -168,7 +183,7 @@ fn pending_keys(cs: usize, open: &Open) -> Vec<String> {
 }
 
 #[derive(Default)]
-struct SeqOut { findings: Vec<Finding>, present: Vec<char>, ever: Vec<char>, evals: u64, nontrivial: u64 }
+struct SeqOut { findings: Vec<Finding>, present: Vec<char>, ever: Vec<char>, evals: u64, nontrivial: u64, young_skips: u64 }
 
 fn short(k: &str) -> &str { let s = k.trim_start_matches(CHUNK_PREFIX).trim_start_matches("sha256:"); &s[..s.len().min(8)] }
 
@@ -212,10 +227,15 @@ async fn state_checks(st: &mut Step, own: &'static str, bs: &BlobStore, slots: &
 }
 
 /// Runs `ops` on the EMPTY store `ts`.  Steps with index < check_from only update the ghost.
-async fn exec_seq(ts: TensorStore, cs: usize, batch: usize, ops: &[String], check_from: usize) -> SeqOut {
+async fn exec_seq(ts: TensorStore, cs: usize, batch: usize, ops: &[String], check_from: usize) -> SeqOut { exec_seq_with(ts, cs, batch, None, ops, check_from).await }
+
+/// `aged` = Some(min age in ms): the real-clock domain (no back-dating, `wait` enabled, findings folded
+/// into C19.gc.aged_sequences)
+async fn exec_seq_with(ts: TensorStore, cs: usize, batch: usize, aged: Option<u64>, ops: &[String], check_from: usize) -> SeqOut {
     let mut out = SeqOut::default();
     assert!(ts.is_empty() && ts.scan("").is_empty(), "harness: sequence must start on an empty store");
-    let bs = match new_blob_on(ts, cs, batch).await {
+    let made = match aged { Some(ms) => new_blob_aged(ts, cs, batch, Duration::from_millis(ms)).await, None => new_blob_on(ts, cs, batch).await };
+    let bs = match made {
         Ok(b) => b,
         Err(e) => { out.findings.push(Finding { ob: O_PG, ok: false, detail: format!("BlobStore::new(chunk {cs}) = Err({e:?})") }); return out; },
     };
@@ -313,10 +333,15 @@ async fn exec_seq(ts: TensorStore, cs: usize, batch: usize, ops: &[String], chec
                     st.req(O_DD, chunk_view(&store) == before && meta_ids(&store) == metas_before, || "second delete changed chunk records / refcounts".to_string());
                 }
             }
+        } else if op == "wait" {
+            // time passes: longer than the min age plus the 1 s resolution of `_created`
+            own = O_AGED;
+            let ms = aged.expect("harness: `wait` only in the aged domain");
+            tokio::time::sleep(Duration::from_millis(ms + 1100)).await;
         } else {
             own = if op == "repair" { O_VF } else { O_GC };
             let r: Result<(), String> = match op.as_str() {
-                "gc" => { age_chunks(&store); bs.gc().await.map(|_| ()).map_err(|e| format!("{e:?}")) },
+                "gc" => { if aged.is_none() { age_chunks(&store); } bs.gc().await.map(|_| ()).map_err(|e| format!("{e:?}")) },
                 "full_gc" => bs.full_gc().await.map(|_| ()).map_err(|e| format!("{e:?}")),
                 "repair" => bs.repair().map(|_| ()).map_err(|e| format!("{e:?}")),
                 _ => panic!("harness: unknown op {op}"),
@@ -332,6 +357,13 @@ async fn exec_seq(ts: TensorStore, cs: usize, batch: usize, ops: &[String], chec
                 if op == "full_gc" && slots.is_empty() && open.is_none() {
                     st.req(own, after.is_empty(), || format!("no artifact exists, full_gc left {} chunk keys", after.len()));
                 }
+                if aged.is_some() && op == "gc" {
+                    // every stored chunk is older than the min age when the collection directly follows a `wait`
+                    if i > 0 && ops[i - 1] == "wait" && slots.is_empty() && open.is_none() && before.len() <= batch {
+                        st.req(own, after.is_empty(), || format!("no artifact exists and every chunk is older than gc_min_age, gc left {} chunk keys", after.len()));
+                    }
+                    if after.keys().any(|k| !ghost.contains_key(k)) { out.young_skips += 1; }
+                }
             }
         }
         if checking {
@@ -345,10 +377,10 @@ async fn exec_seq(ts: TensorStore, cs: usize, batch: usize, ops: &[String], chec
     }
     // sequences with an open writer are the EXTENSION domain: everything they show is reported under
     // the extension obligation, never under one of the six table obligations
-    if inflight {
+    if inflight || aged.is_some() {
         let bad: Vec<String> = out.findings.iter().filter(|f| !f.ok).map(|f| f.detail.clone()).collect();
         let shown = bad.iter().take(8).cloned().collect::<Vec<_>>().join(" || ");
-        out.findings = vec![Finding { ob: O_IF, ok: bad.is_empty(), detail: if bad.len() > 8 { format!("{shown} || (+{} more)", bad.len() - 8) } else { shown } }];
+        out.findings = vec![Finding { ob: if aged.is_some() { O_AGED } else { O_IF }, ok: bad.is_empty(), detail: if bad.len() > 8 { format!("{shown} || (+{} more)", bad.len() - 8) } else { shown } }];
     }
     out.present = slots.keys().copied().collect();
     out.ever = dead.keys().copied().collect();
@@ -644,6 +676,64 @@ fn enumerate(rep: &mut Report, e: &mut Enum, cur: &mut Vec<String>) {
     }
 }
 
+fn aged_case(cs: usize, batch: usize, ops: &[String]) -> Value { json!({"kind": "aged", "cs": cs, "batch": batch, "min_age_ms": AGED_MIN_AGE_MS, "ops": ops}) }
+
+/// the scripts of the `aged` domain: (cs, batch, ops)
+fn aged_scripts(thorough: bool) -> Vec<(usize, usize, Vec<String>)> {
+    let v = |a: &[&str]| a.iter().map(|x| (*x).to_string()).collect::<Vec<String>>();
+    let mut out = vec![];
+    // two artifacts with overlapping content: A is deleted before B is written
+    let m1: [&[&str]; 5] = [&[], &["gc"], &["full_gc"], &["repair"], &["wait", "gc"]];
+    let m2: [&[&str]; 5] = [&["wait", "gc"], &["gc", "wait", "gc"], &["wait", "full_gc"], &["repair", "wait", "gc"], &["wait", "repair", "gc"]];
+    let tails: [&[&str]; 2] = [&[], &["delB", "wait", "gc"]];
+    let pairs: &[(char, char)] = if thorough { &[('P', 'P'), ('P', 'Q'), ('R', 'P'), ('P', 'R'), ('Q', 'R'), ('O', 'P')] } else { &[('P', 'P'), ('P', 'Q'), ('R', 'P')] };
+    let cfgs: &[(usize, usize)] = if thorough { &[(4, 100), (1, 100), (4, 1)] } else { &[(4, 100)] };
+    for &(cs, batch) in cfgs { for &(x, y) in pairs { for a in m1 { for b in m2 { for t in tails {
+        let mut ops = vec![format!("putA:{x}"), "delA".to_string()];
+        ops.extend(v(a));
+        ops.push(format!("putB:{y}"));
+        ops.extend(v(b));
+        ops.extend(v(t));
+        out.push((cs, batch, ops));
+    } } } } }
+    // three artifacts with pairwise overlap (P, Q share two chunks; R repeats the first chunk of both)
+    let trip = [['P', 'Q', 'R'], ['P', 'R', 'Q'], ['Q', 'P', 'R'], ['Q', 'R', 'P'], ['R', 'P', 'Q'], ['R', 'Q', 'P']];
+    let g23: [(&str, &[&str]); 3] = [("gc", &["wait", "gc"]), ("full_gc", &["wait", "gc"]), ("gc", &["gc"])];
+    for [x, y, z] in trip { for g1 in [None, Some("gc")] { for (g2, g3) in g23 {
+        let mut ops = vec![format!("putA:{x}"), "delA".to_string()];
+        if let Some(g) = g1 { ops.push(g.to_string()); }
+        ops.extend([format!("putB:{y}"), format!("putC:{z}"), "wait".to_string(), g2.to_string(), "delB".to_string()]);
+        ops.extend(v(g3));
+        if g1.is_none() { ops.extend(v(&["delC", "wait", "gc"])); }
+        out.push((4, 100, ops));
+    } } }
+    out
+}
+
+/// up to 200 scripts at once (a TensorStore holds ~17 MB), each on its own store, as tasks of one
+/// current-thread runtime: the sleeps overlap
+fn run_aged(rep: &mut Report, rt: &Runtime, scripts: &[(usize, usize, Vec<String>)]) -> u64 {
+    let mut outs: Vec<SeqOut> = vec![];
+    for round in scripts.chunks(200) {
+        outs.extend(rt.block_on(async {
+            let handles: Vec<_> = round.iter().cloned().map(|(cs, batch, ops)| tokio::spawn(async move {
+                exec_seq_with(TensorStore::new(), cs, batch, Some(AGED_MIN_AGE_MS), &ops, 0).await
+            })).collect();
+            let mut outs = vec![];
+            for h in handles { outs.push(h.await.expect("harness: aged script task")); }
+            outs
+        }));
+    }
+    let mut young = 0;
+    for ((cs, batch, ops), out) in scripts.iter().zip(outs) {
+        for _ in 0..out.evals { rep.eval(false); }
+        rep.nontrivial += out.nontrivial;
+        young += out.young_skips;
+        record(rep, out.findings, &|| aged_case(*cs, *batch, ops));
+    }
+    young
+}
+
 fn run_full_seq(rep: &mut Report, rt: &Runtime, pool: &TensorStore, cs: usize, batch: usize, ops: &[String]) {
     let out = run_seq(rt, pool, cs, batch, ops, 0);
     for _ in 0..out.evals { rep.eval(false); }
@@ -660,6 +750,7 @@ pub fn run(tier: Tier, seed: u64) -> Report {
          dedup: putA:x putB:y del,del,full_gc for x,y in {E,O,P,Q,R,S}, both delete orders, cs{1,4,1024,65536}; \
          verify: B in {E,O,P,Q,R} x C in {none,P,Q,S} x every chunk of B x {flip at every/first-mid-last offset x masks 01,80; drop; refs:=0|7 + repair}, cs{1,4,1024,65536}; \
          inflight(extension): [putA:{-,O,P,Q}] begW:{O,P,Q,R} [{-,gc,full_gc,repair,delA}] finW [putB:P delW gc] x cs{1,4,1024}; \
+         aged(extension, real clock, gc_min_age 1 s): putA:x delA m1 putB:y m2 [delB wait gc] for (x,y) in {PP,PQ,RP,PR,QR,OP}, m1 in {-,gc,full_gc,repair,wait gc}, m2 in {wait gc, gc wait gc, wait full_gc, repair wait gc, wait repair gc}, (cs,batch) in {(4,100),(1,100),(4,1)} + 36 three-artifact scripts; \
          plus 3000 seeded random sequences of length 6..12 (not exhaustive)"
     } else {
         "chunk: all {00,FF}-strings len<=9 x cs{1,2,3,4,5,8} + pattern data of every length 0..=3cs+7 for cs{1,2,3,4,5,7,8,16,64,1024}; \
@@ -667,7 +758,8 @@ pub fn run(tier: Tier, seed: u64) -> Report {
          seq: all enabled op sequences of length<=4 over {putA|putB:(E,O,P,Q,R), delA, delB, gc(aged), full_gc, repair}, cs 4 and cs 1; \
          dedup: putA:x putB:y del,del,full_gc for x,y in {E,O,P,Q,R,S}, both delete orders, cs{1,4,1024}; \
          verify: B in {E,O,P,Q,R} x C in {none,P,Q,S} x every chunk of B x {flip at every/first-mid-last offset x masks 01,80; drop; refs:=0|7 + repair}, cs{1,4,1024}; \
-         inflight(extension): [putA:{-,O,P,Q}] begW:{O,P,Q,R} [{-,gc,full_gc,repair,delA}] finW [putB:P delW gc] x cs{1,4,1024}"
+         inflight(extension): [putA:{-,O,P,Q}] begW:{O,P,Q,R} [{-,gc,full_gc,repair,delA}] finW [putB:P delW gc] x cs{1,4,1024}; \
+         aged(extension, real clock, gc_min_age 1 s): putA:x delA m1 putB:y m2 [delB wait gc] for (x,y) in {PP,PQ,RP}, m1 in {-,gc,full_gc,repair,wait gc}, m2 in {wait gc, gc wait gc, wait full_gc, repair wait gc, wait repair gc}, cs 4 + 36 three-artifact scripts over {P,Q,R}"
     };
     let mut rep = Report::new("c19_blob", domain, true,
         &["tensor_blob::Chunker::chunk", "Chunker::chunk_count", "BlobStore::put", "BlobStore::get", "BlobStore::writer", "BlobWriter::write", "BlobWriter::finish",
@@ -680,6 +772,7 @@ pub fn run(tier: Tier, seed: u64) -> Report {
     rep.declare(O_GC, "tensor_blob::BlobStore::{gc,full_gc}");
     rep.declare(O_VF, "tensor_blob::BlobStore::{verify,repair}");
     if INFLIGHT { rep.declare(O_IF, "tensor_blob::BlobStore::{writer,gc,full_gc,repair} (open writer)"); }
+    rep.declare(O_AGED, "tensor_blob::BlobStore::{gc,full_gc,repair} with gc_min_age 1 s on the real clock (GarbageCollector::gc_cycle age branch)");
     let rt = mk_rt();
     let pool = TensorStore::new();
 
@@ -782,6 +875,15 @@ pub fn run(tier: Tier, seed: u64) -> Report {
         rep.sample(json!({"kind": "seq", "cs": 4, "batch": 100, "ops": ["begW:R", "full_gc", "finW", "putB:P", "delW", "gc"]}));
     }
 
+    // ---- real clock, non-zero min age (extension)
+    {
+        let scripts = aged_scripts(thorough);
+        let young = run_aged(&mut rep, &rt, &scripts);
+        // (vacuity guard of the age branch: how often an incremental gc met a zero-ref chunk and left it in place)
+        rep.domain.push_str(&format!(" [aged: {} scripts, {young} gc calls left a zero-ref chunk that was too young]", scripts.len()));
+        rep.sample(json!({"kind": "aged", "cs": 4, "batch": 100, "min_age_ms": AGED_MIN_AGE_MS, "ops": ["putA:P", "delA", "gc", "putB:Q", "wait", "gc"]}));
+    }
+
     // ---- seeded random long sequences (beyond the exhaustive core)
     if thorough {
         let mut rng = Rng(seed ^ 0xC19);
@@ -820,6 +922,12 @@ pub fn replay(ob: &str, case: &Value) -> Result<String, String> {
             let ops: Vec<String> = case["ops"].as_array().ok_or("ops missing")?.iter().map(|v| v.as_str().unwrap_or("").to_string()).collect();
             let batch = case.get("batch").and_then(Value::as_u64).unwrap_or(100) as usize;
             rt.block_on(exec_seq(TensorStore::new(), cs, batch, &ops, 0)).findings
+        },
+        "aged" => {
+            let ops: Vec<String> = case["ops"].as_array().ok_or("ops missing")?.iter().map(|v| v.as_str().unwrap_or("").to_string()).collect();
+            let batch = case.get("batch").and_then(Value::as_u64).unwrap_or(100) as usize;
+            let ms = case.get("min_age_ms").and_then(Value::as_u64).unwrap_or(AGED_MIN_AGE_MS);
+            rt.block_on(exec_seq_with(TensorStore::new(), cs, batch, Some(ms), &ops, 0)).findings
         },
         "putget" => rt.block_on(exec_putget(cs, case["size"].as_u64().ok_or("size missing")? as usize, case["mode"].as_str().ok_or("mode missing")?)),
         "chunk" => {
